@@ -63,6 +63,13 @@ func (g *Global) verifyFunc(key string) (res *FuncResult) {
 		tr.assume(st, tr.evalBool(env, rq.Expr))
 	}
 	tr.specMode--
+	if fc.Iterates != nil && !fc.Trusted {
+		tr.cbEnv = map[string]EV{}
+		for k, v := range env.vars {
+			tr.cbEnv[k] = v
+		}
+		tr.cbInit(fn, st)
+	}
 	// case split (contract clause "case"): the conditions are evaluated at entry; they must be exhaustive, and an obligation
 	// that no solver decides as a whole is retried under each condition separately (see discharge)
 	if len(fc.Cases) > 0 {
@@ -100,6 +107,9 @@ func (g *Global) verifyFunc(key string) (res *FuncResult) {
 			for _, ff := range tr.frameFormulas(fc, mods, fenv, tr.oldState, r.st) {
 				tr.oblige(r.st, "frame", ff.name, nil, ff.formula, "frame: only the listed objects are modified in "+ff.name)
 			}
+		}
+		if tr.cbParam != nil {
+			tr.cbFinal(r.st)
 		}
 		for _, en := range fc.Ensures {
 			goal := tr.evalBool(penv, en.Expr)
